@@ -140,27 +140,35 @@ pub fn deserialize_schedule(str: &str) -> Option<Schedule> {
     let str: String = str.chars().filter(|c| !c.is_whitespace()).collect();
     let bytes = hex::decode(str).ok()?;
 
-    let version = bytes[0];
+    let version = *bytes.first()?;
     if version != SCHEDULE_MAGIC_V2 {
         return None;
     }
     let mut bytes = &bytes[1..];
 
-    let task_id_bits = bytes.read_u64_varint().ok()? as usize;
-    let schedule_len = bytes.read_u64_varint().ok()? as usize;
+    let task_id_bits = usize::try_from(bytes.read_u64_varint().ok()?).ok()?;
+    if task_id_bits == 0 || task_id_bits > usize::BITS as usize {
+        return None;
+    }
+    let schedule_len = usize::try_from(bytes.read_u64_varint().ok()?).ok()?;
     let seed = bytes.read_u64_varint().ok()?;
 
     let encoded = BitSlice::<_, Lsb0>::from_slice(bytes);
+    // Every step occupies at least one bit, so a longer schedule cannot be present.
+    if schedule_len > encoded.len() {
+        return None;
+    }
     let mut offset = 0usize;
     let mut steps = Vec::with_capacity(schedule_len);
     while steps.len() < schedule_len {
-        if *encoded.get(offset).unwrap() {
+        if *encoded.get(offset)? {
             steps.push(ScheduleStep::Random);
             offset += 1;
         } else {
-            let tid = encoded[offset + 1..offset + 1 + task_id_bits].load::<usize>();
+            let end = offset + 1 + task_id_bits;
+            let tid = encoded.get(offset + 1..end)?.load::<usize>();
             steps.push(ScheduleStep::Task(TaskId::from(tid)));
-            offset += 1 + task_id_bits;
+            offset = end;
         }
     }
 
